@@ -1,6 +1,15 @@
 HOOK_COMMITS = ["91ffc11"]
 NOT_APPLICABLE = {}
 ENTRIES = {
+    "C08": {
+        "text": "Theorems for every script of read events (every byte stream, every fragmentation, pendings anywhere): the model of "
+                "ReadVersion::poll answers HTTP/2 iff the stream begins with the 24-byte preface; the Rewind replays buffer++rest so "
+                "the handler sees exactly the client's bytes for every sequence of read capacities; pendings are irrelevant. Tied to the "
+                "real ReadVersion (hook) and Rewind by differential runs on scripted io. One genuine defect found and fixed.",
+        "note": "Trusted: Lean kernel (propext, Quot.sound, Classical.choice at most); hyper's http1/http2 server connections and "
+                "ReadBuf are assumed; memory safety of the unsafe blocks is not modelled; correspondence is sampled plus a small exhaustive sweep.",
+        "design_ref": "DESIGN.md §5 C08",
+    },
     "C20": {
         "text": "Theorems for every request (version, Host header, authority, TLS info, server name over arbitrary strings): "
                 "the model of sni::handle forwards a TLS request naming a host iff the server name equals that host "
